@@ -17,7 +17,6 @@ RULE = ("generated schemas (objects, interfaces incl. interface-implements-inter
 
 # known-finding classification: narrow keys, decided from the failing rule families of the document Go
 # effectively validates (erules), the mutation operator label, Go's stage / family / message
-NULL_ITEM = re.compile(r"^(null-for-non-null/list(-item.*)?$|bad-variable-default/null-item|null-item)")
 COMPOSITE = re.compile(r"^(merge-witness/|)(conflict-different-(args|names)/composite|composite-fields)")
 ENUM = re.compile(r"(^enum-vs|/E\d?-vs-|-vs-E\d?$)")
 NESTED_VAR = re.compile(r"^(var-incompatible-type/[^/]*/(list|obj)|nullable-variable-in-non-null-item|list-variable-in-item-position)")
@@ -40,8 +39,6 @@ def classify(case, detail):
     g = re.search(r'\(go (\w) "([^"]*)" "([^"]*)" "([^"]*)"\)\)$', case)
     msg = unq(g.group(4)) if g else ""
     if detail.startswith("total:"):
-        if "index out of range" in detail and "with length 2" in detail:
-            return "skip-default-non-boolean-panic"
         return None
     f = fields_of(detail)
     if f is None:
@@ -51,20 +48,14 @@ def classify(case, detail):
             return "static-skip-hides-errors"
         if f["eff"] == "explains:fragdef-dirs":
             return "fragment-definition-directives-unvalidated"
-        if "frag-unique" in f["erules"]:
+        if "frag-unique" in f["erules"] or "frag-unique" in f["rules"]:
             # which of the two definitions is used differs; every other complaint is a consequence
             return "duplicate-fragment-name-ignored"
         keys = []
         for r in f["erules"]:
             k = None
-            if r == "subscription-introspection":
-                k = "subscription-typename-root"
-            elif r == "var-default-const":
+            if r == "var-default-const":
                 k = "variable-default-not-const"
-            elif r == "dir-arg-required":
-                k = "directive-required-argument-unchecked"
-            elif r in ("value", "var-default-value") and NULL_ITEM.search(f["op"]):
-                k = "null-item-in-non-null-list"
             elif r == "frag-unique":
                 k = "duplicate-fragment-name-ignored"
             elif r == "merge" and "/typename" in f["op"]:
@@ -82,8 +73,6 @@ def classify(case, detail):
             keys.append(k)
         return keys[0] if keys else None
     if f["go"] == "reject" and f["spec"] == "valid" and f["stage"] == "validate":
-        if f["family"] == "value-type" and "non 32-bit signed integer value: -2147483648" in msg:
-            return "int-min-rejected"
         if f["family"] == "fields-conflict" and "differing fields for objectName" in msg and "reordered-arguments" in detail:
             return "args-order-sensitive"
         if f["family"] == "directive-location" and "not allowed on node of kind: INLINE_FRAGMENT" in msg:
